@@ -278,7 +278,10 @@ def _rand_val(rnd, cls, depth):
         if k < 0.82:
             return None
         if k < 0.90:
-            return rnd.choice([0.5, -1.25, 1e10, 3.0, 1.5e-7])
+            # reals, including ones that need all 17 significant digits to survive a round trip
+            return rnd.choice([0.5, -1.25, 1e10, 3.0, 1.5e-7, 0.1 + 0.2, 1.0 / 3.0, 3.141592653589793, 18446744073709551616.0,
+                               1.7976931348623157e308, 5e-324, 2.2250738585072014e-308, rnd.random(), rnd.uniform(-1e6, 1e6),
+                               rnd.random() * 10.0 ** rnd.randrange(-300, 300)])
         return rnd.choice([[], {}])
     if r < 0.75:
         return {(_rand_str(rnd, cls) or "k") + str(i): _rand_val(rnd, cls, depth - 1) for i in range(rnd.randrange(0, 5))}
@@ -435,7 +438,14 @@ def c07_fuzz(ncases, per_case):
                             b = b[:pos]
                     b = bytes(b)
                 via = rnd.choice(vias_old if live else vias_new)
-                ops.append(dict(op="Load", ring=0, via=via, doc="anyraw", keys=[], hex=b.hex()))
+                cls = "anyraw"
+                if rnd.random() < 0.15:
+                    # a complete JSON document followed by NUL and more bytes: not JSON (by construction)
+                    # for the entry points that are given the length or read a file
+                    b = rnd.choice(base_docs).encode() + b"\x00" + rnd.choice([b"", b"x", b" ", rnd.choice(base_docs).encode(), rnd.randbytes(5)])
+                    via = rnd.choice(["load_strn", "fromfile", "fromfp"] if live else ["create_strn", "create_fromfile", "create_fromfp"])
+                    cls = "nonjson"
+                ops.append(dict(op="Load", ring=0, via=via, doc=cls, keys=[], hex=b.hex()))
                 live = True
                 if rnd.random() < 0.1:
                     ops.append(dict(op="FreeBad", ring=0))
